@@ -82,7 +82,7 @@ def decodeAllAux (tbl : WidthTable) : Nat → Bytes → Nat → Option (List Ins
     | some ws =>
       match readOperands ws bs with
       | .ok (args, rest) =>
-        match decodeAllAux tbl fuel rest (off + 1 + ws.sum) with
+        match decodeAllAux tbl fuel rest (off + (ws.sum + 1)) with
         | some is => some (⟨off, b.toNat, args⟩ :: is)
         | none => none
       | _ => none
